@@ -51,6 +51,8 @@ def gen_writes(rng, phase, n, nodes):
     owner = {}
     for q in range(n):
         tok = "T%dx%dq" % (phase, q)
+        if rng.random() < 0.08:
+            tok += "G" * rng.choice([3000, 70000, 300000])   # gossip frames that arrive in several reads
         r = rng.random()
         if r < 0.35:
             c = ("SET", rng.choice(keys), tok)
